@@ -60,6 +60,10 @@ namespace occa {
             break;
           }
           ++tokenContext;
+          if (!tokenContext.size()) {
+            // Trailing comma: enum E { a, b, }
+            break;
+          }
           source = (tokenContext[0]->clone()->to<identifierToken>());
         }
       }
